@@ -3,7 +3,7 @@ import re
 
 from ..core import AnalysisError, anchor
 from .. import cfront
-from ..cfront import walk, strip, render, line_of, is_assign
+from ..cfront import walk, strip, render, line_of, is_assign, callee_name, call_args
 from . import compose as C, c01, c02, c12, c13, ias15, x1, pairloops as P
 
 
@@ -126,7 +126,105 @@ def rule_integrator_components(ctx):
                 'predictor/corrector of IAS15, encounter bookkeeping) are one formula under an axis permutation', stats['groups'], floor=180, samples=stats['samples'])
 
 
+def _access_path(e):
+    """r.ri_x.member.sub for a chain of MemberExprs that ends in a pointer to the simulation or to one of its integrator structs"""
+    from . import c09
+    e = strip(e, casts=True)
+    parts = []
+    while e.get('kind') == 'MemberExpr':
+        base = strip(e['inner'][0], casts=True)
+        bt = cfront.qtype(base).replace('const', '').replace('struct', '').replace('*', '').replace('restrict', '').strip()
+        if bt == 'reb_simulation':
+            return '.'.join(['r', e['name']] + parts[::-1])
+        host = c09._sim_member_of(bt)
+        if host and base.get('kind') != 'MemberExpr':
+            return '.'.join(['r', host, e['name']] + parts[::-1])
+        parts.append(e['name'])
+        e = base
+    return None
+
+
+def rule_rollback(ctx, rule='R04.7'):
+    """R04.7: an integrator that may reject an attempted step and redo it (TRACE: backup of the particles, attempt, test, copy
+    back, second attempt) has to put back everything the attempt advanced. The attempt's read-modify-write updates of the
+    integrator's own persistent struct (compound assignments, followed through the functions of the same file) are
+    collected; each must be restored in the rejection block next to the particles. An absolute assignment is recomputed
+    by the second attempt, an increment is applied twice."""
+    n = 0
+    samples = []
+    for cfile, host in (('integrator_trace.c', 'ri_trace'),):
+        tu = cfront.load_tu(cfile)
+        for fname in sorted(tu.funcs):
+            fn = tu.func(fname)
+            body = cfront.body(fn)
+            if body is None:
+                continue
+            # rejection blocks: an if-body that copies a backup over r->particles and then calls the attempt again
+            for ifs in walk(body):
+                if ifs.get('kind') != 'IfStmt':
+                    continue
+                blk = ifs['inner'][1]
+                top = blk.get('inner', []) if blk.get('kind') == 'CompoundStmt' else [blk]
+                rest = [st for st in top if any(x.get('kind') == 'CallExpr' and callee_name(x) == 'memcpy' and 'particles' in render(call_args(x)[0]) and 'backup' in render(call_args(x)[1]) for x in walk(st))]
+                if not rest or any(x.get('kind') == 'IfStmt' and x is not ifs and any(y in rest for y in walk(x)) for x in walk(blk)):
+                    continue
+                redo = [callee_name(x) for st in top for x in walk(st) if x.get('kind') == 'CallExpr' and callee_name(x) in tu.funcs]
+                if not redo:
+                    continue
+                attempt = redo[-1]
+                n += 1
+                restored = set()
+                for st in top:
+                    for x in walk(st):
+                        if is_assign(x) and x['opcode'] == '=':
+                            p_ = _access_path(x['inner'][0])
+                            if p_:
+                                restored.add(p_)
+                        if x.get('kind') == 'CallExpr' and callee_name(x) == 'memcpy':
+                            p_ = _access_path(call_args(x)[0])
+                            if p_:
+                                restored.add(p_)
+                # read-modify-write updates of the integrator's struct reachable from the attempt
+                seen, todo, rmw = set(), [attempt], {}
+                while todo:
+                    f_ = todo.pop()
+                    if f_ in seen or f_ not in tu.funcs:
+                        continue
+                    seen.add(f_)
+                    fb = cfront.body(tu.func(f_))
+                    if fb is None:
+                        continue
+                    # counters that the same function first sets absolutely are recomputed, not accumulated
+                    reset_at = {}
+                    for x in walk(fb):
+                        if is_assign(x) and x['opcode'] == '=':
+                            p_ = _access_path(x['inner'][0])
+                            if p_:
+                                reset_at.setdefault(p_, line_of(x))
+                    for x in walk(fb):
+                        if x.get('kind') == 'CallExpr' and callee_name(x):
+                            todo.append(callee_name(x))
+                        lhs = None
+                        if is_assign(x) and x['opcode'] in ('+=', '-=', '*=', '/='):
+                            lhs = x['inner'][0]
+                        elif x.get('kind') == 'UnaryOperator' and x.get('opcode') in ('++', '--'):
+                            lhs = x['inner'][0]
+                        if lhs is not None:
+                            p_ = _access_path(lhs)
+                            if p_ and p_.startswith('r.%s.' % host) and not (p_ in reset_at and reset_at[p_] <= line_of(x)):
+                                rmw.setdefault(p_, 'src/%s:%s %s' % (cfile, line_of(x), f_))
+                where = 'src/%s:%s %s' % (cfile, line_of(ifs), fname)
+                for p_, w in sorted(rmw.items()):
+                    n += 1
+                    if not any(p_ == r_ or p_.startswith(r_ + '.') for r_ in restored):
+                        ctx.report(rule, '%s:rollback:%s' % (fname, p_.split('.', 2)[2]), where,
+                                   'the rejected attempt (%s) advances %s by an increment (%s), the rejection block restores only %s: the second attempt applies the increment again' % (attempt, p_, w, sorted(restored) or 'nothing'))
+                samples.append('%s: attempt %s, incremented %s, restored %s' % (where, attempt, sorted(rmw), sorted(restored)))
+    ctx.covered(rule, 'step rejection: incremented members of the integrator struct are restored before the second attempt', n, floor=2, samples=samples)
+
+
 def run(ctx):
+    rule_rollback(ctx)
     rule_integrator_components(ctx)
     loops = c02.rule_pairs(ctx)                # R02.3 antisymmetry, R02.7 pair indices
     c02.rule_components(ctx)                   # R02.2 X1 on force loops
